@@ -759,6 +759,9 @@ class Variant(productmd.composeinfo.VariantBase):
                 self.add(variant)
 
     def deserialize_1_0(self, parser, uid, addon=False):
+        if addon and not parser.has_section(self._section):
+            # child variants of other types live in [variant-*] sections
+            self.type = parser.get("variant-%s" % uid, "type")
         self.id = parser.get(self._section, "id")
         self.uid = parser.get(self._section, "uid")
         self.name = parser.get(self._section, "name")
